@@ -786,6 +786,28 @@ func TestC10ThroughSNIProxy(t *testing.T) {
 		}
 		// application data may follow in the same segment
 		stream := append(append([]byte{}, rec...), rapid.SliceOfN(rapid.Byte(), 0, 64).Draw(t, "trailing")...)
+		if rapid.IntRange(0, 15).Draw(t, "tiny-record") == 0 {
+			// a complete record whose lengths are consistent but tiny (a handshake message of 0-8
+			// bytes): rejected, never a crash
+			n := rapid.IntRange(0, 8).Draw(t, "handshake-bytes")
+			tiny := []byte{0x16, 0x03, 0x01, 0, byte(4 + n), 0x01, 0, 0, byte(n)}
+			tiny = append(tiny, rapid.SliceOfN(rapid.Byte(), n, n).Draw(t, "body")...)
+			var got []string
+			func() {
+				defer func() {
+					if p := recover(); p != nil {
+						t.Fatalf("SNIProxy.ServeTCP panicked on a complete record with a handshake message of %d bytes (%d bytes in all): %v", n, len(tiny), p)
+					}
+				}()
+				got = sniThroughProxy(tiny)
+			}()
+			hx.Eval()
+			if len(got) != 0 {
+				t.Fatalf("proxy looked up %q for a hello of %d bytes", got, len(tiny))
+			}
+			hx.Class("through-proxy:tiny-consistent-record")
+			return
+		}
 		if rapid.IntRange(0, 7).Draw(t, "peer-goes-away-early") == 0 {
 			// the peer disconnects after a part of its hello (from nothing at all to all but the last
 			// byte): the connection is dropped, nothing is routed, nothing is read out of bounds
